@@ -91,27 +91,28 @@ func printWord(w *syntax.Word) (string, bool) {
 }
 
 type obs struct {
-	Word    string     `json:"word"` // hex
-	Coq     int        `json:"coq,omitempty"`
-	Flag    bool       `json:"flag"`
-	Tree    []jpart    `json:"tree"`
-	Exp     [][]string `json:"exp"`    // BracesSeq: per word the hex Lit values; nil when error/panic
-	ExpErr  string     `json:"experr"` // "" | "E" (limit error) | "P" (panic)
-	Fields  []string   `json:"fields"` // expand.Fields, hex; nil on error
-	FErr    string     `json:"ferr"`
-	Spec    []string   `json:"spec"` // Go-side spec, raw words, hex; nil when many
-	Many    bool       `json:"many"`
-	Bash    []string   `json:"bash,omitempty"` // hex, when asked
-	Feat    string     `json:"feat"`
-	Fails   []string   `json:"fails,omitempty"`
-	Class   string     `json:"class,omitempty"`
-	Stream  string     `json:"stream"`
-	rawWord string
-	rawExp  []string
-	rawFld  []string
-	rawSpec []string
-	noBash  bool
-	feat    feat
+	Word          string     `json:"word"` // hex
+	Coq           int        `json:"coq,omitempty"`
+	Flag          bool       `json:"flag"`
+	Tree          []jpart    `json:"tree"`
+	Exp           [][]string `json:"exp"`    // BracesSeq: per word the hex Lit values; nil when error/panic
+	ExpErr        string     `json:"experr"` // "" | "E" (limit error) | "P" (panic)
+	Fields        []string   `json:"fields"` // expand.Fields, hex; nil on error
+	FErr          string     `json:"ferr"`
+	Spec          []string   `json:"spec"` // Go-side spec, raw words, hex; nil when many
+	Many          bool       `json:"many"`
+	Bash          []string   `json:"bash,omitempty"` // hex, when asked
+	Feat          string     `json:"feat"`
+	Fails         []string   `json:"fails,omitempty"`
+	Class         string     `json:"class,omitempty"`
+	Stream        string     `json:"stream"`
+	rawWord       string
+	rawExp        []string
+	rawFld        []string
+	rawSpec       []string
+	noBash        bool
+	fieldsSkipped bool
+	feat          feat
 }
 
 func observe(w string, stream string) *obs {
@@ -163,23 +164,6 @@ func observe(w string, stream string) *obs {
 	if o.ExpErr == "" && o.Exp == nil {
 		o.Exp = [][]string{}
 	}
-	// expand.Fields on a fresh word, empty environment
-	w2 := &syntax.Word{Parts: []syntax.WordPart{&syntax.Lit{Value: w}}}
-	if p, _ := hx.Try(func() {
-		f, err := expand.Fields(&expand.Config{}, w2)
-		if err != nil {
-			o.FErr = "E"
-			if !strings.Contains(err.Error(), "brace expansion would exceed") {
-				o.FErr = "E:" + err.Error()
-			}
-			return
-		}
-		o.rawFld = append([]string{}, f...)
-		o.Fields = hx.HexList(o.rawFld)
-	}); p {
-		o.FErr = "P"
-		o.Fails = append(o.Fails, "fields_panics")
-	}
 	// spec
 	sp, many := braceExpand(w, &o.feat)
 	o.Many = many
@@ -188,11 +172,38 @@ func observe(w string, stream string) *obs {
 		o.rawSpec = sp
 		o.Spec = hx.HexList(sp)
 	}
+	// expand.Fields on a fresh word, empty environment (for over-limit words only every 4th: it repeats the 16385 yields)
+	manySeen++
+	if many && manySeen%4 != 0 {
+		o.FErr = "E"
+		o.fieldsSkipped = true
+	} else {
+		w2 := &syntax.Word{Parts: []syntax.WordPart{&syntax.Lit{Value: w}}}
+		if p, _ := hx.Try(func() {
+			f, err := expand.Fields(&expand.Config{}, w2)
+			if err != nil {
+				o.FErr = "E"
+				if !strings.Contains(err.Error(), "brace expansion would exceed") {
+					o.FErr = "E:" + err.Error()
+				}
+				return
+			}
+			o.rawFld = append([]string{}, f...)
+			o.Fields = hx.HexList(o.rawFld)
+		}); p {
+			o.FErr = "P"
+			o.Fails = append(o.Fails, "fields_panics")
+		}
+	}
 	// words bash cannot be given on a line of their own
 	if n := len(w) - len(strings.TrimRight(w, `\`)); n%2 == 1 {
 		o.noBash = true
 	}
 	if many || o.feat.zpadWide {
+		o.noBash = true
+	}
+	// a letter range crossing Z..a produces '[', '\\', ']', '^', '_', '`': bash would re-read some of them as quoting
+	if o.feat.crossCase {
 		o.noBash = true
 	}
 	return o
@@ -271,7 +282,8 @@ func classify(o *obs) string {
 		switch f {
 		case "expansion_differs_from_spec", "fields_differ_from_bash", "fields_differ_from_spec":
 		case "error_below_limit", "fields_error_below_limit":
-			if !o.feat.seqGuard {
+			// Go expanding something bash keeps literal (or the reverse) can also move the word across the limit
+			if !o.feat.seqGuard && !o.feat.failedSeqNested && !o.feat.skippedClose && !o.feat.nestedComma {
 				return ""
 			}
 		default:
@@ -459,7 +471,7 @@ func genSeq(r *rand.Rand) string {
 		a, b = genNum(r), genLetter(r, false) // mixed: invalid
 	default:
 		a, b = genNum(r), genNum(r)
-		if r.IntN(3) == 0 {
+		if r.IntN(3) == 0 || (len(a) > 8 && r.IntN(8) != 0) {
 			// a short range next to a
 			if v, err := strconv.ParseInt(a, 10, 64); err == nil {
 				d := int64(r.IntN(30) - 15)
@@ -567,6 +579,7 @@ type counters struct {
 
 var cnt = counters{PerStream: map[string]int{}, ObserveMs: map[string]float64{}}
 var seen = map[string]bool{}
+var manySeen int
 
 // finishBatch asks bash about the batch and judges every word.
 func finishBatch(batch []*obs, emitAll bool) {
